@@ -141,6 +141,9 @@ def build():
     u.assume('builder arithmetic contracts as in unit gad (assumed); EF::from(base) is an uninterpreted embedding')
     u.text(open(os.path.join(HERE, 'gadget_prelude.rs')).read())
     u.text(SPEC.replace('@@TYPES@@', types_from_repo()))
+    # pure helpers a change may add to the operation kind (e.g. a peephole on the operand): reasoned about by their bodies
+    from vf.unit import pull_pure_type_helpers
+    u.text(pull_pure_type_helpers(u, 'circuit/src/symbolic/dag.rs', 'BinOp', (), rewrites=[(r'\bSymbolicExpr<', 'SymbolicExpression<'), (r'\bSymbolicExpr::', 'SymbolicExpression::')]))
     u.text('verus! { broadcast use {ax::node_key_model, vstd::std_specs::hash::group_hash_axioms}; }')
     T = 'circuit/src/symbolic/targets.rs'
     rb = u.extract(T, r"impl ColumnsTargets<'_>", 'resolve_base_var', 'ColumnsTargets::resolve_base_var')
